@@ -362,6 +362,12 @@ func genC11(c *ctx) {
 				cse.OracleFail = "canonical encoding does not decode: " + derr.Error()
 			} else if re, rerr := set.MarshalMsgpack(); rerr != nil || !bytes.Equal(re, out) {
 				cse.OracleFail = fmt.Sprintf("decode then re-encode changes the bytes (%v)", rerr)
+			} else {
+				// inspecting and clearing are read-only: the encoding (what a holder would sign next) must not move
+				exerciseSet(set)
+				if re, rerr := set.MarshalMsgpack(); rerr != nil || !bytes.Equal(re, out) {
+					cse.OracleFail = fmt.Sprintf("reading a decoded caveat set (Validate / GetCaveats / scopes / JSON / Clone) changed its encoding: %x -> %x (%v)", out[:imin(len(out), 40)], re[:imin(len(re), 40)], rerr)
+				}
 			}
 		}
 		st.Add(cse)
@@ -390,7 +396,7 @@ func genC11(c *ctx) {
 	}
 	for i := 0; i < ns; i++ {
 		var set []m.Cav
-		for k := rng.Pick(r, []int{0, 1, 3, 7, 8, 9}); k > 0; k-- {
+		for k := rng.Pick(r, []int{0, 1, 3, 7, 8, 9, 0, 1, 3, 7, 8, 9, 0, 1, 3, 7, 8, 9, 64, 65}); k > 0; k-- {
 			set = append(set, edgeCav(r, 1))
 		}
 		gs := macaroon.NewCaveatSet(m.CavsGo(set)...)
@@ -541,6 +547,12 @@ func exerciseSet(set *macaroon.CaveatSet) {
 	}
 	one := uint64(1)
 	set.Validate(&flyio.Access{OrgID: &one, Action: resset.ActionRead})
+	// requests naming deeper resources, with commands shorter than / as long as / longer than what a caveat may list
+	app, mach, feat := uint64(1), "m1", "wg"
+	for _, cmd := range [][]string{{}, {"a"}, {"a", "b"}, {"a", "b", "c", "d"}} {
+		set.Validate(&flyio.Access{OrgID: &one, AppID: &app, Machine: &mach, Command: cmd, Action: resset.ActionControl})
+	}
+	set.Validate(&flyio.Access{OrgID: &one, AppID: &app, Feature: &feat, Action: resset.ActionAll}, &flyio.Access{OrgID: &one, Action: resset.ActionNone})
 	macaroon.GetCaveats[*macaroon.ValidityWindow](set)
 	macaroon.GetCaveats[*macaroon.Caveat3P](set)
 	flyio.OrganizationScope(set)
@@ -574,6 +586,17 @@ func exerciseToken(b []byte) {
 	if m3, err := macaroon.Decode(b); err == nil {
 		m3.Add(&macaroon.Caveat3P{Location: "https://tp3.test", Ticket: []byte{1, 2, 3}})
 	}
+	// every sealed blob the wire controls reaches unseal: the verifier key (a discharge candidate for the caveat's ticket is
+	// presented), the ticket at the third party, the discharge's key-id when its location is trusted
+	for _, c3 := range macaroon.GetCaveats[*macaroon.Caveat3P](&mm.UnsafeCaveats) {
+		if d, err := macaroon.New(c3.Ticket, c3.Location, macaroon.NewSigningKey()); err == nil {
+			if db, err := d.Encode(); err == nil {
+				mm.Verify(macaroon.NewSigningKey(), [][]byte{db}, map[string][]macaroon.EncryptionKey{c3.Location: {macaroon.NewEncryptionKey()}})
+			}
+		}
+		macaroon.DischargeTicket(macaroon.NewEncryptionKey(), c3.Location, c3.Ticket)
+	}
+	macaroon.DischargeTicket(macaroon.NewEncryptionKey(), mm.Location, mm.Nonce.KID)
 	mm.Encode()
 	mm.String()
 	mm.Clone()
@@ -620,7 +643,26 @@ func genC12(c *ctx) {
 		wire, _ := mm.Encode()
 		var input []byte
 		kind := ""
-		switch r.Intn(11) {
+		switch r.Intn(13) {
+		case 11: // third-party caveats whose sealed fields are shorter than an AEAD nonce / tag, or empty
+			sm, _ := macaroon.New(r.Bytes(r.Intn(4)), "https://loc.test", key)
+			vk, tk := r.Bytes(rng.Pick(r, []int{0, 1, 11, 12, 13, 27, 28, 29})), r.Bytes(rng.Pick(r, []int{0, 1, 11, 12, 13, 27, 28, 29}))
+			sm.UnsafeCaveats.Caveats = append(sm.UnsafeCaveats.Caveats, &macaroon.Caveat3P{Location: "https://tp.test", VerifierKey: vk, Ticket: tk})
+			input, _ = sm.Encode()
+			kind = "short-sealed-blob"
+		case 12: // command lists of every shape against requests with shorter / longer / empty commands
+			var cmds flyio.Commands
+			for k := r.Intn(3); k >= 0; k-- {
+				var args []string
+				for q := 1 + r.Intn(3); q > 0; q-- {
+					args = append(args, rng.Pick(r, []string{"a", "b", "c"}))
+				}
+				cmds = append(cmds, flyio.Command{Args: args, Exact: r.Bool()})
+			}
+			cm, _ := macaroon.New(r.Bytes(2), "https://loc.test", key)
+			cm.Add(&flyio.Organization{ID: 1, Mask: resset.ActionAll}, &cmds)
+			input, _ = cm.Encode()
+			kind = "commands"
 		case 9: // a well-formed token whose tail has the wrong size (the tail keys the seal of every third-party caveat added next)
 			n := rng.Pick(r, []int{0, 1, 16, 31, 33, 64})
 			input = append(append(append([]byte{}, wire[:len(wire)-34]...), 0xc4, byte(n)), r.Bytes(n)...)
